@@ -158,6 +158,7 @@ type pipeResult struct {
 	matches                []extractor.Match
 	readErrors             int
 	compileError           bool
+	badBatch               string // a received match batch that is not the in-order matched part of ONE input batch ("" = none)
 }
 
 var pipeSeq int
@@ -235,6 +236,32 @@ func runPipe(c pipeCfg) pipeResult {
 	}
 	runtime.GC()
 	res := pipeResult{read: ext.ReadLines(), matched: ext.MatchedLines(), ignored: ext.IgnoredLines(), readErrors: b.ReadErrors()}
+	// theorem pipeline_match_batches: every received batch is non-empty, from one source, in line order, inside ONE
+	// input batch; with size-cut batches (no timer) the input batch of a line is (number-1)/batch, and the matches of
+	// one input batch are never split over two deliveries
+	seen := map[string]bool{}
+	for _, mb := range held {
+		if len(mb) == 0 {
+			res.badBatch = "empty"
+			continue
+		}
+		for i := 1; i < len(mb); i++ {
+			if mb[i].Source != mb[0].Source || mb[i].LineNumber <= mb[i-1].LineNumber || (c.batch > 0 && mb[i].LineNumber-mb[0].LineNumber >= uint64(c.batch)) {
+				res.badBatch = fmt.Sprintf("mixed %s:%d,%s:%d", mb[0].Source, mb[0].LineNumber, mb[i].Source, mb[i].LineNumber)
+			}
+		}
+		if c.flushMs == 0 && c.batch > 0 {
+			k := (mb[0].LineNumber - 1) / uint64(c.batch)
+			if (mb[len(mb)-1].LineNumber-1)/uint64(c.batch) != k {
+				res.badBatch = fmt.Sprintf("straddles %s:%d..%d", mb[0].Source, mb[0].LineNumber, mb[len(mb)-1].LineNumber)
+			}
+			key := fmt.Sprintf("%s/%d", mb[0].Source, k)
+			if seen[key] {
+				res.badBatch = "split " + key
+			}
+			seen[key] = true
+		}
+	}
 	for _, mb := range held {
 		res.matches = append(res.matches, mb...)
 	}
@@ -327,7 +354,7 @@ func pipeAnswer(c pipeCfg, r pipeResult) string {
 	}
 	claimed := c.workers == 1 && (c.readers == 1 || len(c.inputs) <= 1)
 	io := 1
-	if (claimed && !inorder) || (c.workers == 1 && !perSrc) {
+	if (claimed && !inorder) || (c.workers == 1 && !perSrc) || r.badBatch != "" {
 		io = 0
 	}
 	sort.Slice(rows, func(i, j int) bool {
